@@ -285,6 +285,9 @@ static void run_inner_product_nested() {
         for (int i = 0; i < n; ++i) want += rdot(to_ref(x[i]), to_ref(y[i]));
         RM w; w.a[0] = want;
         std::vector<C> got(outer);
+        // every case carries its own history: one top-level call with the full team first (whatever a previous call leaves in
+        // per-thread storage must not reach a later call made by a smaller team), so that a failing case replays on its own
+        { Holder<T, K> u(n), v(n); fill(u, 7 + pat, 3); fill(v, 5 + outer, 1); (void)with_threads(nt, [&]{ return backend::inner_product(u.vec(), v.vec()); }); }
         with_threads(nt, [&]{
 #pragma omp parallel num_threads(outer)
             {
